@@ -1,5 +1,85 @@
+import NessaiVerif.Model.FlowAlgebra
 import NessaiVerif.Driver.Parse
-/- stub: replaced by the owner of this area -/
+/-
+Line protocol of the flow area (C08).  The primitives read from the real torch / numpy objects at ONE point
+(base log-density, transform log|det|, rescaling log-Jacobian, alternative latent log-density) arrive as exact
+rationals of the float64 values; the answer is what the wrapper of `Model/FlowAlgebra.lean` returns, as an exact
+rational.  Points themselves are abstract (`Unit`; for `fm_slp` the latent type is `Bool`: `false` = the noise the
+flow draws itself, `true` = the supplied `z`).
+
+  flow nflow_lp  b ld                      NFlow.log_prob
+  flow nflow_flp b ld                      NFlow.forward_and_log_prob (log-density)
+  flow nflow_slp b ldi                     NFlow.sample_and_log_prob  (log-density)
+  flow fm_slp <hasz> <alt|none> bNoise bZ ldiNoise ldiZ      FlowModel.sample_and_log_prob
+  flow fp_fwd <rescale> b ld jr            FlowProposal.forward_pass
+  flow fp_bwd <rescale> <alt|none> b ldi jri                 FlowProposal.backward_pass
+  flow ifp_row j [b:ld,…]                  ImportanceFlowProposal.compute_meta_proposal_samples (log_q row)
+  flow ifp_upd level j [b:ld,…] [q,…]      ImportanceFlowProposal.update_log_q
+  flow ifp_draw i jcheck [b:ld,…]          ImportanceFlowProposal.draw (log_q row)
+-/
 namespace NessaiVerif.Driver.Flow
-def handle (_toks : List String) : String := "bad-op"
+open NessaiVerif NessaiVerif.Parse NessaiVerif.Flow
+
+/-- a flow at one abstract point: forward gives log|det| `ld`, inverse gives `ldi`, base density `b` -/
+def pointFlow (b ld ldi : Rat) : NFlowM Unit Unit Rat :=
+  ⟨⟨fun _ => ((), ld), fun _ => ((), ldi)⟩, fun _ => b⟩
+
+def pointR (jr jri : Rat) : Transform Unit Unit Rat := ⟨fun _ => ((), jr), fun _ => ((), jri)⟩
+
+def parsePair? (s : String) : Option (Rat × Rat) :=
+  match s.splitOn ":" with
+  | [a, b] => do
+      let a ← parseRat? a
+      let b ← parseRat? b
+      some (a, b)
+  | _ => none
+
+def flowsOf (ps : List (Rat × Rat)) : List (NFlowM Unit Unit Rat) := ps.map fun p => pointFlow p.1 p.2 0
+
+def handle (toks : List String) : String :=
+  match toks with
+  | ["nflow_lp", b, ld] =>
+    match parseRat? b, parseRat? ld with
+    | some b, some ld => showRat ((pointFlow b ld 0).logProb ())
+    | _, _ => "bad-op"
+  | ["nflow_flp", b, ld] =>
+    match parseRat? b, parseRat? ld with
+    | some b, some ld => showRat ((pointFlow b ld 0).forwardAndLogProb ()).2
+    | _, _ => "bad-op"
+  | ["nflow_slp", b, ldi] =>
+    match parseRat? b, parseRat? ldi with
+    | some b, some ldi => showRat ((pointFlow b 0 ldi).sampleAndLogProb ()).2
+    | _, _ => "bad-op"
+  | ["fm_slp", hz, alt, bn, bz, ln, lz] =>
+    match parseBool? hz, parseOpt? parseRat? alt, parseRat? bn, parseRat? bz, parseRat? ln, parseRat? lz with
+    | some hz, some alt, some bn, some bz, some ln, some lz =>
+      let f : NFlowM Unit Bool Rat :=
+        ⟨⟨fun _ => (false, 0), fun z => ((), if z then lz else ln)⟩, fun z => if z then bz else bn⟩
+      showRat (fmSampleAndLogProb f false (if hz then some true else none) (alt.map fun a => fun _ => a)).2
+    | _, _, _, _, _, _ => "bad-op"
+  | ["fp_fwd", rs, b, ld, jr] =>
+    match parseBool? rs, parseRat? b, parseRat? ld, parseRat? jr with
+    | some rs, some b, some ld, some jr => showRat (fpForwardPass (pointFlow b ld 0) (pointR jr 0) rs ()).2
+    | _, _, _, _ => "bad-op"
+  | ["fp_bwd", rs, alt, b, ldi, jri] =>
+    match parseBool? rs, parseOpt? parseRat? alt, parseRat? b, parseRat? ldi, parseRat? jri with
+    | some rs, some alt, some b, some ldi, some jri =>
+      showRat (fpBackwardPass (pointFlow b 0 ldi) (pointR 0 jri) (alt.map fun a => fun _ => a) rs ()).2
+    | _, _, _, _, _ => "bad-op"
+  | ["ifp_row", j, ps] =>
+    match parseRat? j, parseList? parsePair? ps with
+    | some j, some ps => showList showRat (ifpMetaRow (flowsOf ps) (pointR j 0) ())
+    | _, _ => "bad-op"
+  | ["ifp_upd", level, j, ps, q] =>
+    match parseNat? level, parseRat? j, parseList? parsePair? ps, parseList? parseRat? q with
+    | some level, some j, some ps, some q =>
+      showOpt (showList showRat) (ifpUpdateLogQ (flowsOf ps) (pointR j 0) level () q)
+    | _, _, _, _ => "bad-op"
+  | ["ifp_draw", i, j, ps] =>
+    match parseNat? i, parseRat? j, parseList? parsePair? ps with
+    | some i, some j, some ps =>
+      showOpt (fun p => showList showRat p.2) (ifpDraw (flowsOf ps) (pointR j 0) id i ())
+    | _, _, _ => "bad-op"
+  | _ => "bad-op"
+
 end NessaiVerif.Driver.Flow
